@@ -174,7 +174,7 @@ def check_read_fn(ctx, facts, eff, fn_name, need_stateful):
         if not r["cp"]:
             missing.append("checkpoint")
         if need_stateful and not r["st"]:
-            if r["callee"] and re.search(r"WalIndex::set$", r["callee"]) and r["cp"] and target_inherits(body, facts, site, closure_names):
+            if r["callee"] and any(k.startswith("mut:WalIndex") for k in r["kinds"]) and r["cp"] and target_inherits(body, facts, site, closure_names):
                 pass
             else:
                 missing.append("start_offset.is_none()")
